@@ -285,6 +285,22 @@ theorem C10_delete (g : Geo) (s : Keys) (k : Int) :
     refine ⟨by simp, by simp, ?_⟩
     intro j hj; simp [hj]
 
+/-- **a deleted key has no destructor any more** (`myth_key_delete` clears it), and the destructors of
+    all other keys are untouched: a thread that still holds a value under the deleted key does not
+    have the deleted key's destructor called when it exits (the exit walk calls `dtor k` only, C11),
+    and a later `create` that reuses the key installs exactly the new destructor -/
+theorem C10_delete_clears_destructor (g : Geo) (s : Keys) (k : Int) (h : validKey g k ∧ s.live k.toNat = true) :
+    (s.dealloc g k).1.dtor k.toNat = none ∧
+    (∀ j, j ≠ k.toNat → (s.dealloc g k).1.dtor j = s.dtor j) ∧
+    (∀ d, ((s.dealloc g k).1.alloc d).2 = k.toNat ∧ ((s.dealloc g k).1.alloc d).1.dtor k.toNat = d) := by
+  obtain ⟨⟨h0, h1⟩, hl⟩ := h
+  have hr : ¬ (k < 0 ∨ k ≥ g.nKeys) := by omega
+  unfold Keys.dealloc
+  simp only [hr, if_false, hl]
+  refine ⟨by simp, ?_, ?_⟩
+  · intro j hj; simp [hj]
+  · intro d; simp [Keys.alloc]
+
 /-! ### non-vacuity -/
 example : get geo (treeOfFrom geo none [(5, 1), (1023, 2), (-1, 3), (1024, 4)]) 1023 = 2 := by decide
 example : geo.nKeys = 1024 := by decide
